@@ -389,10 +389,37 @@ func (g *Gen) newDef(depth int) Ref {
 	return d
 }
 
+// dataLabels: data mostly fills the labels the schemas mention at this path
+func (g *Gen) dataLabels() []Label {
+	var known, other []Label
+	for _, l := range []Label{{LReg, 0}, {LReg, 1}, {LReg, 2}, {LReg, 3}, {LHid, 0}, {LDef, 0}} {
+		key := g.path + "." + l.Sexp()
+		_, a := g.pref[key]
+		_, b := g.shape[key]
+		if a || b {
+			known = append(known, l)
+		} else if l.Kind == LReg {
+			other = append(other, l)
+		}
+	}
+	var ls []Label
+	for _, l := range known {
+		if g.r.Chance(4, 5) {
+			ls = append(ls, l)
+		}
+	}
+	for _, l := range other {
+		if g.r.Chance(1, 6) {
+			ls = append(ls, l)
+		}
+	}
+	common.Shuffle(g.r, ls)
+	return ls
+}
+
 func (g *Gen) data(depth int) Struct {
-	n := g.r.Intn(4)
 	var ds []Decl
-	for _, l := range g.labels(n) {
+	for _, l := range g.dataLabels() {
 		var v Expr = g.scalarFor(l)
 		if _, isAtom := v.(ScalAtom); !isAtom {
 			v = ScalAtom{g.pref[g.path+"."+l.Sexp()]}
